@@ -177,21 +177,25 @@ class FQN:
                         return_value = find_obj(m, name)
                         if return_value is not None:
                             return return_value
-                meta_attrs = getattr(type(parent), "_tx_attrs", {})
-                for attr in [
-                    a
-                    for a in parent.__dict__
-                    if not a.startswith("__")
-                    and not a.startswith("_tx_")
-                    and not callable(getattr(parent, a))
-                ]:
-                    # A qualified name follows containment only. Do not walk
-                    # up to the container or through plain references.
-                    if attr == "parent" or (
-                        attr in meta_attrs and not meta_attrs[attr].cont
-                    ):
-                        continue
-                    obj = getattr(parent, attr)
+                meta_attrs = getattr(type(parent), "_tx_attrs", None)
+                if meta_attrs is not None:
+                    # A qualified name follows containment only: the
+                    # containment attributes the meta-class declares (not the
+                    # container, plain references or attributes a user class
+                    # keeps for itself).
+                    attrs = [a for a, m in meta_attrs.items() if m.cont]
+                else:
+                    # an object that is not a textX model object
+                    attrs = [
+                        a
+                        for a in getattr(parent, "__dict__", {})
+                        if not a.startswith("__")
+                        and not a.startswith("_tx_")
+                        and a != "parent"
+                        and not callable(getattr(parent, a))
+                    ]
+                for attr in attrs:
+                    obj = getattr(parent, attr, None)
                     if isinstance(obj, (list, tuple)):
                         for innerobj in obj:
                             if hasattr(innerobj, "name") and innerobj.name == name:
